@@ -887,6 +887,34 @@ func checkNoReadaheadLoss(p *an.Prog, r *an.Run) {
 					}
 				}
 			}
+			// the carried-over bytes are replayed whenever there are any: a test of the remainder's length is "> 0" (or
+			// "!= 0", ">= 1") — with "> 1" a single byte stays behind and turns up after the next read-ahead, inside
+			// whatever token that read was cut in
+			for _, rf := range region {
+				an.AllInstrs(rf, func(in ssa.Instruction) {
+					iff, ok := in.(*ssa.If)
+					if !ok {
+						return
+					}
+					rel, ok := an.NormCond(iff.Cond)
+					if !ok {
+						return
+					}
+					lc, isCall := rel.L.(*ssa.Call)
+					k, isK := an.ConstInt(rel.R)
+					if !isCall || !isK || an.CallObj(lc) == nil || an.CallObj(lc).Name() != "Len" || len(lc.Call.Args) == 0 {
+						return
+					}
+					if root, _ := an.RootPath(stripLoad(lc.Call.Args[0])); p.Resolve(root) != ssa.Value(recv) {
+						return
+					}
+					okRel := (rel.Op == token.GTR && k == 0) || (rel.Op == token.NEQ && k == 0) || (rel.Op == token.GEQ && k == 1) || (rel.Op == token.EQL && k == 0) || (rel.Op == token.LEQ && k == 0) || (rel.Op == token.LSS && k == 1)
+					if !okRel {
+						kept = false
+						why = append(why, "the carried-over remainder is replayed only when its length "+rel.Op.String()+" "+strconv.FormatInt(k, 10)+" ("+p.Pos(iff.Pos())+"): shorter remainders are not put in front of the next read")
+					}
+				})
+			}
 			r.Check(kept && !perCallBuf, "no-readahead-loss", name, c.Pos(), "the decoder's read-ahead survives the call", "%s builds a json.Decoder on the connection's stream for one message and drops it: whatever it read past that message (a second message that arrived in the same read) is lost; %s", name, strings.Join(why, "; "))
 		}
 	}
@@ -1764,4 +1792,24 @@ func checkGorillaSingleWriter(p *an.Prog, r *an.Run) {
 		checkReadErrorTerminal(p, r)
 		r.Check(len(bad) == 0, "single-writer", "gorilla.wsCodec", token.NoPos, "every connection write holds muWrite, every read holds muRead", "%s", strings.Join(bad, "; "))
 	}
+}
+
+// checkShippedCodec: the binaries serve websocket peers over the gorilla codec (the one with locked writes) only. Shared by
+// C17, C14 (each call gets its own reply: two handlers writing at once merge or lose replies on an unlocked codec) and C15.
+func checkShippedCodec(p *an.Prog, r *an.Run) {
+	mainPkg := p.Pkg("")
+	if mainPkg == nil {
+		r.Undec("shipped-codec", "main", token.NoPos, "main package not found")
+		return
+	}
+	hasGorilla, hasGobwas := false, false
+	for path := range mainPkg.Imports {
+		if path == pkgRPC+"/ws/gorilla" {
+			hasGorilla = true
+		}
+		if path == pkgRPC+"/ws/gobwas" {
+			hasGobwas = true
+		}
+	}
+	r.Check(hasGorilla && !hasGobwas, "shipped-codec", "main", token.NoPos, "the binaries use the gorilla codec (locked writes) only", "package main imports gorilla=%v gobwas=%v: the gobwas and plain stream codecs do not serialise concurrent writers", hasGorilla, hasGobwas)
 }
